@@ -674,8 +674,11 @@ def _cli_lifetime(ctx, group, scratch, tag, file_cache_maxsize=128):
             try:
                 g = fn(inv['string'])
                 box = None
-                if g.geom_type == 'Polygon' and len(g.exterior.coords) == 5 and g.equals(g.envelope):
-                    box = list(g.bounds)
+                if g.geom_type == 'Polygon' and 4 <= len(g.exterior.coords) <= 5:
+                    # an axis-aligned rectangle, possibly of zero width or height ('39,16.9,39,-119' is four numbers too)
+                    x0_, y0_, x1_, y1_ = g.bounds
+                    if all(cx in (x0_, x1_) and cy in (y0_, y1_) for cx, cy in g.exterior.coords):
+                        box = list(g.bounds)
                 ctx.observe(f'grammar{n}', {'box': box, 'type': g.geom_type})
                 ctx.emit('invocation', n=n, cmd='grammar', status=0 if box else 1, accepted_as_box=box is not None)
             except Exception as e:
